@@ -277,6 +277,26 @@ def run_case(case):
                 viol.append(V(f'C16:driver2-stopped:{r2.outcome}:{ty}', f'read-back driver stopped after {len(p2)}/{2 * m}: '
                               f'{r2.outcome} {r2.stdout[-200:]!r} {r2.crash_tb}',
                               item=items[len(p2) % m] if items else None))
+    # driver 2b: the texts are first READ into a LONG variable, then (after RESTORE) at their own type: what an earlier READ
+    # made of an item must not stick to it
+    if texts and ty in '!#':
+        small = [(v, x, tx) for v, x, tx in texts if x == x and abs(x) < 1e9][:200]
+        if small:
+            items_b = [tx.strip() for _, _, tx in small]
+            mb = len(items_b)
+            data_b = '\n'.join('DATA ' + ','.join(items_b[i:i + 50]) for i in range(0, mb, 50))
+            drv_b = (f'{data_b}\nFOR zi& = 1 TO {mb}\nREAD zl&\nNEXT\nRESTORE\nFOR zi& = 1 TO {mb}\nREAD zx{ty}\nPRINT zx{ty};\nNEXT\n')
+            rb, errb = run_driver(drv_b, {}, 120 * mb + 1000)
+            if rb is None:
+                viol.append(V('C16:driver2b-rejected', errb, text=drv_b[:600]))
+            else:
+                pb = [e[1] for e in rb.history if e[0] == 'print']
+                for i, (v, x, tx) in enumerate(small):
+                    if i < len(pb):
+                        st['reread_roundtrips'] = st.get('reread_roundtrips', 0) + 1
+                        viol += [dict(w, sig=w['sig'] + ':after-integer-read') for w in roundtrip_viol(ty, x, tx, pb[i][0][2], 'READ')]
+                if len(pb) < mb:
+                    viol.append(V(f'C16:driver2b-stopped:{rb.outcome}:{ty}', f're-read driver stopped after {len(pb)}/{mb}: {rb.outcome}'))
     # third driver: the same numbers and texts written as constants in the source, unoptimised and fully optimised (what a
     # compiler evaluates itself must be what the run-time library produces)
     if texts:
